@@ -134,3 +134,32 @@ Theorem C10_source_first_moment_curve_nondecreasing :
     Rle (nth 0%R (acc1 expm regf Ss Slast alpha [:: t1] r) 0%N) (nth 0%R (acc1 expm regf Ss Slast alpha [:: t2] r) 0%N).
 Proof. exact: source_first_moment_monotone. Qed.
 Print Assumptions C10_source_first_moment_curve_nondecreasing.
+
+(* a redundant change point changes nothing (translated _accumulate / cdf, any demography, any order, any times) *)
+From PG Require Import analysis.SourceRefine.
+Theorem C10_source_accumulate_redundant_change_point :
+  forall (expm : seq (seq R) -> seq (seq R)),
+    (forall n A, wf n n A -> wf n n (expm A) /\ mx_of n n (expm A) = mexp (mx_of n n A)) ->
+  forall (regf : seq (seq R) -> R) (n k : nat) (Ss : seq (Q * seq (seq R))) (Slast : seq (seq R)) (Rs : seq (seq R))
+         (alpha : seq R) (ts : seq Q) (c : Q),
+    regf (List.hd (None, Slast) (all_epochs Ss Slast)).2 <> 0%R ->
+    List.Forall (fun x : Q * seq (seq R) => wf n n x.2) Ss -> wf n n Slast ->
+    (forall i, (i < k)%N -> size (nth [::] Rs i) = n) ->
+    epochs_wf (seq (seq R)) 0%QQ Ss -> epochs_wf (seq (seq R)) 0%QQ (split_epoch _ c Slast Ss) -> (0 < c)%QQ ->
+    List.Forall (fun t => (0 <= t)%QQ) ts ->
+    PhaseTypeDistribution_accumulate OpsR expm regf (length Slast) k (all_epochs (split_epoch _ c Slast Ss) Slast) Rs alpha ts
+    = PhaseTypeDistribution_accumulate OpsR expm regf (length Slast) k (all_epochs Ss Slast) Rs alpha ts.
+Proof. exact: source_accumulate_redundant_change_point. Qed.
+Print Assumptions C10_source_accumulate_redundant_change_point.
+
+Theorem C10_source_cdf_redundant_change_point :
+  forall (expm : seq (seq R) -> seq (seq R)),
+    (forall n A, wf n n A -> wf n n (expm A) /\ mx_of n n (expm A) = mexp (mx_of n n A)) ->
+  forall (n : nat) (Ss : seq (Q * seq (seq R))) (Slast : seq (seq R)) (alpha e : seq R) (ts : seq Q) (c : Q),
+    List.Forall (fun x : Q * seq (seq R) => wf n n x.2) Ss -> wf n n Slast -> size e = n ->
+    epochs_wf (seq (seq R)) 0%QQ Ss -> epochs_wf (seq (seq R)) 0%QQ (split_epoch _ c Slast Ss) -> (0 < c)%QQ ->
+    List.Forall (fun t => (0 <= t)%QQ) ts ->
+    TreeHeightDistribution_cdf OpsR expm (length Slast) (all_epochs (split_epoch _ c Slast Ss) Slast) alpha e ts
+    = TreeHeightDistribution_cdf OpsR expm (length Slast) (all_epochs Ss Slast) alpha e ts.
+Proof. exact: source_cdf_redundant_change_point. Qed.
+Print Assumptions C10_source_cdf_redundant_change_point.
